@@ -270,6 +270,11 @@ func (w *dtWalker) addrKey(st *dtState, a ssa.Value) string {
 			return k
 		}
 		return w.allocName(x)
+	case *ssa.FreeVar:
+		// captured variable (pointer to the parent's cell)
+		if _, isPtr := x.Type().Underlying().(*types.Pointer); isPtr {
+			return "local:captured:" + x.Name()
+		}
 	case *ssa.IndexAddr:
 		base := w.keyOf(st, x.X)
 		if base == "" {
@@ -404,6 +409,8 @@ func (w *dtWalker) exec(st *dtState, in ssa.Instruction) {
 		if x.Low != nil {
 			if cv, ok := w.constOfVal(st, x.Low); ok {
 				lo = cv.ExactString()
+			} else if lk := w.keyOf(st, x.Low); lk != "" {
+				lo = lk
 			} else {
 				lo = "?"
 			}
@@ -411,6 +418,8 @@ func (w *dtWalker) exec(st *dtState, in ssa.Instruction) {
 		if x.High != nil {
 			if cv, ok := w.constOfVal(st, x.High); ok {
 				hi = cv.ExactString()
+			} else if hk := w.keyOf(st, x.High); hk != "" {
+				hi = hk
 			} else {
 				hi = "?"
 			}
@@ -475,7 +484,19 @@ func (w *dtWalker) calleeName(call *ssa.Call) string {
 		}
 		return recv + o.Name()
 	}
-	return "dyn:" + call.Call.Value.Name()
+	// dynamic call: name it by its possible callees (VTA), not by an SSA register
+	var names []string
+	for _, f := range w.c.Callees(call) {
+		names = append(names, f.Name())
+	}
+	if len(names) > 0 {
+		sort.Strings(names)
+		return "dyn:{" + strings.Join(names, "|") + "}"
+	}
+	if f, _, ok := fieldLoad(call.Call.Value); ok {
+		return "dyn:field:" + f.Name()
+	}
+	return "dyn:?"
 }
 
 // variadic/literal slice contents as constants (e.g. []byte{do,dont,will,wont}).
